@@ -1,6 +1,7 @@
 from __future__ import annotations
 
 import dataclasses
+import os
 from collections import namedtuple
 from dataclasses import dataclass
 from itertools import count
@@ -97,6 +98,28 @@ class BasicBlock:
             )
             for expr in body
         ]
+
+        if os.environ.get("FORMAK_VERIF") == "1":
+            # Verification hook: keep the post-CSE program that was lambdified
+            self._verif_prefix = [
+                (
+                    str(temporaries[i]),
+                    (
+                        simplify(prefix[i][1])
+                        if self._config.common_subexpression_elimination
+                        else prefix[i][1]
+                    ),
+                )
+                for i in range(len(prefix))
+            ]
+            self._verif_body = [
+                (
+                    simplify(expr)
+                    if self._config.common_subexpression_elimination
+                    else expr
+                )
+                for expr in body
+            ]
 
     def execute(self, *args, **kwargs):
         # Note: The list of statements is ordered and can get CSE or reordered within the block because we know it is straight calculation without control flow (a basic block)
